@@ -108,6 +108,11 @@ pub fn cases(thorough: bool) -> Vec<ECase> {
         let ticket = crate::mtls::Ticket { server_params: remembered_default.clone(), secret: [9; 16] };
         let t2 = ticket.clone();
         add("0rtt-rejected-lower-limits".into(), &move |c| { c.ticket = Some(t2.clone()); c.accept_early = false; c.server.max_uni = Some(2); c.server.max_bidi = Some(1); c.server.recv_window = Some(3000); c.server.stream_recv_window = Some(900); }, Plan { early: true, early_salt: 0x5a, ..plan(six.clone()) }, Plan { echo_len: Some(50), ..Default::default() }, vec![], (0, 24));
+        // accepted although the server now offers less than the ticket remembers (the server's
+        // mistake): the client must notice and end the connection rather than go on sending under the
+        // remembered, larger limits
+        let t4 = ticket.clone();
+        add("0rtt-accepted-lower-limits".into(), &move |c| { c.ticket = Some(t4.clone()); c.accept_early = true; c.server.max_uni = Some(2); c.server.max_bidi = Some(1); c.server.recv_window = Some(3000); c.server.stream_recv_window = Some(900); }, Plan { early: true, ..plan(vec![sp(Dir::Uni, 20_000, 1000), sp(Dir::Bi, 6000, 700), sp(Dir::Uni, 3000, 500), sp(Dir::Uni, 500, 500)]) }, Plan { echo_len: Some(50), ..Default::default() }, vec![], (0, 24));
         let mut small = PairCfg::default();
         small.server.max_uni = Some(2);
         small.server.max_bidi = Some(1);
